@@ -698,6 +698,15 @@ func (ro *rollout) complete() (bool, string) {
 		}
 	}
 	p := ro.r.liveParent()
+	want := map[string]bool{}
+	for _, k := range ro.r.kids {
+		want[k.Name] = true
+	}
+	for _, o := range ro.r.w.sim.PeekAll(ro.gvr().GVR()) {
+		if c := sim.ControllerOf(o); p != nil && c != nil && c.UID == sim.UID(p) && !want[sim.Name(o)] && !sim.IsDeleting(o) {
+			return false, "child " + sim.Name(o) + " is no longer desired by the latest revision but still exists"
+		}
+	}
 	conds, _ := sim.Nested(p, "status", "conditions")
 	cl, _ := conds.([]interface{})
 	okCond := false
